@@ -132,13 +132,27 @@ def run(m, rep, tier):
     # ---- map / hash adapters ----------------------------------------------------------------
     check_map_adapter(m, k1, k2)
     f = m.ifn('cstl_hash_clear_visit') or _hash_clear_adapter(m)
-    if f is None:
-        # no adapter: clear walks the chains itself and calls the callback directly
+    adapter_ok = None
+    if f is not None:
+        calls = [c for c in f.all_insts() if c.op == 'call' and c.callee is None and c.x.get('fty') == XTOR_FTY]
+        bad = []
+        for c in calls:
+            bad += touches_after(f, c, '$0')
+        rets_zero = all(r.o and const_int(r.o[0]) == 0 for r in f.returns())
+        adapter_ok = len(calls) == 1 and not bad and rets_zero and all(f.dominates(calls[0], r) for r in f.returns())
+    if adapter_ok:
+        k1.ok('hash-clear-adapter', 'calls the callback once, returns 0, never touches the element')
+    else:
+        # no adapter of that shape (clear walks the chains itself, or shares one adapter with foreach_const): judged on
+        # clear's own inlined body -- every call through the caller's callback, and what happens to the node afterwards
         from . import c04
         hf = m.ifn('cstl_hash_clear')
         calls = [c for c in hf.all_insts() if c.op == 'call' and c.callee is None and c.x.get('cv') == '$1'] if hf is not None else []
         if not calls:
-            k1.undecided('hash-clear-adapter', 'not found, and cstl_hash_clear does not call the callback itself')
+            if f is None:
+                k1.undecided('hash-clear-adapter', 'not found, and cstl_hash_clear does not call the callback itself')
+            else:
+                k1.violation('hash-clear-adapter', 'the hash clear adapter does not call the callback exactly once and return 0 without touching the element', floc(m, f), {})
         else:
             bad = []
             for c in calls:
@@ -151,17 +165,7 @@ def run(m, rep, tier):
             if bad:
                 k1.violation('hash-clear-adapter', '; '.join(sorted(set(bad))[:2]), floc(m, hf), {})
             else:
-                k1.ok('hash-clear-adapter', 'no adapter: clear calls the callback itself, %d site(s), the node is not touched afterwards' % len(calls), floc(m, hf))
-    else:
-        calls = [c for c in f.all_insts() if c.op == 'call' and c.callee is None and c.x.get('fty') == XTOR_FTY]
-        bad = []
-        for c in calls:
-            bad += touches_after(f, c, '$0')
-        rets_zero = all(r.o and const_int(r.o[0]) == 0 for r in f.returns())
-        if len(calls) == 1 and not bad and rets_zero and all(f.dominates(calls[0], r) for r in f.returns()):
-            k1.ok('hash-clear-adapter', 'calls the callback once, returns 0, never touches the element')
-        else:
-            k1.violation('hash-clear-adapter', 'the hash clear adapter does not call the callback exactly once and return 0 without touching the element', floc(m, f), {})
+                k1.ok('hash-clear-adapter', 'judged on clear\'s inlined body: %d call(s) through the callback, the node is not touched afterwards' % len(calls), floc(m, hf))
 
     # ---- K3 ----------------------------------------------------------------------------------
     check_restored(m, k3)
